@@ -254,3 +254,34 @@ def run(prog, chk):
     t = unparse(rr.node)
     chk.ob("R5.reader-loops-until-awaited", "_read_response", "while True" in t and "if num == waitfor" in t, rr.loc,
            "loops until the awaited number arrives")
+    _request_numbers_unique(prog, chk)
+
+
+def _request_numbers_unique(prog, chk):
+    """R6: a response is matched to its request by number, so two requests in flight must never share one: the counter
+    is read, recorded in _expecting and advanced inside one critical section of SFTPClient._lock (the prefetch thread
+    issues requests concurrently), and the number sent is the one recorded."""
+    from ..core.locks import LockFlow
+    ar = prog.func("SFTPClient._async_request")
+    lf = LockFlow(prog, ar, implicit=True)
+    uses = [n for n in lf.fl.cfg.nodes if n.id in lf.fl.live and n.ast is not None and n.kind in ("stmt", "cond", "for_iter", "return")
+            and any(isinstance(x, ast.Attribute) and unparse(x) == "self.request_number" for x in ast.walk(n.ast))]
+    chk.floor("R6", "uses of request_number in _async_request", len(uses), 3)
+    bad = [n for n in uses if not lf.holds(n, "self._lock")]
+    chk.ob("R6.request-number-under-lock", "_async_request", not bad, ar.loc,
+           "every read / write of self.request_number holds self._lock%s" % ("" if not bad else
+           "; not at %s: two threads (prefetch + caller) can issue the same number and one response is routed to the wrong request" % ", ".join(lf.fl.where(n) for n in bad)))
+    incs = [n for n in uses if isinstance(n.ast, ast.AugAssign) and isinstance(n.ast.op, ast.Add) and unparse(n.ast.value) == "1"]
+    regs = [n for n in lf.fl.nodes(lambda n: n.kind == "stmt" and isinstance(n.ast, ast.Assign) and unparse(n.ast.targets[0]).startswith("self._expecting["))]
+    ok = len(incs) == 1 and len(regs) == 1 and lf.holds(regs[0], "self._lock")
+    if ok:
+        key = unparse(regs[0].ast.targets[0].slice)
+        kd = lf.fl.defs(key, regs[0])
+        ok = len(kd) == 1 and kd[0][1] is not None and unparse(kd[0][1]) == "self.request_number"
+        rets = lf.fl.nodes(lambda n: n.kind == "return")
+        ok = ok and all(r.ast.value is not None and unparse(r.ast.value) == key for r in rets)
+        # the number written into the message is the counter's value in the same critical section
+        adds = [c for (n, c) in lf.fl.nodes_with_call(name="msg.add_int") if unparse(c.args[0]) in ("self.request_number", key)]
+        ok = ok and len(adds) >= 1
+    chk.ob("R6.number-recorded-sent-and-returned", "_async_request", ok, ar.loc,
+           "num = self.request_number is written as the first field, recorded in _expecting[num] and returned; the counter advances once")
